@@ -90,9 +90,9 @@ func genPatcherExit(w *World, res *CheckResult) {
 	st.Assume(Not(Eq(pv.One(), NilLoc)))
 	st.Assume(Not(Eq(slot.One(), NilLoc)))
 	b := FreshPre(st, "bin")
-	st.Assume(Not(Eq(LObj(b), LObj(slot.One()))))
-	st.Assume(Not(Eq(LObj(b), LObj(pv.One()))))
-	st.Assume(Not(Eq(LObj(pv.One()), LObj(slot.One()))))
+	AssumeDistinctObjs(st, b, slot.One())
+	AssumeDistinctObjs(st, b, pv.One())
+	AssumeDistinctObjs(st, pv.One(), slot.One())
 	old := VCtor("VPtr", typeCodeTerm(binPtr), b)
 	st.Store(slot.One(), old)
 	bst := binT.Underlying().(*typesStruct)
